@@ -1,0 +1,23 @@
+//go:build verif
+
+package clightning
+
+import (
+	"github.com/elementsproject/glightning/gbitcoin"
+	"github.com/elementsproject/glightning/glightning"
+	"github.com/elementsproject/peerswap/onchain"
+)
+
+// VerifNewWalletClient builds a ClightningClient that has exactly the fields
+// the on-chain wallet adapter (clightning_wallet.go) uses: the lightningd RPC
+// client, the bitcoind RPC client, the Bitcoin on-chain service and the
+// reported lightningd version. Verification harness only.
+func VerifNewWalletClient(gl *glightning.Lightning, gb *gbitcoin.Bitcoin, chain *onchain.BitcoinOnChain, version string) *ClightningClient {
+	return &ClightningClient{
+		version:        version,
+		glightning:     gl,
+		gbitcoin:       gb,
+		bitcoinChain:   chain,
+		bitcoinNetwork: chain.GetChain(),
+	}
+}
